@@ -81,7 +81,7 @@ def hexList (s : String) : List Bytes :=
   (splitList s ",").map (fun h => (Hex.decode h).getD [])
 
 def renderReq (cp rid ver : Bytes) : Req → Bytes × List Bytes
-  | .cmd n a => (n, a)
+  | .cmd n a _ => (n, a)
   | .multi => (bMulti, [])
   | .exec => (bExec, [])
   | .cpMeta => (str "hset", [cp, rid ++ str "_runid", rid, rid ++ str "_version", ver])
